@@ -545,3 +545,41 @@ Definition run_c03w (invert implicit_temp explicit_stage : bool) (host : hostg) 
       L [L [trc (negb implicit_temp) rc; tmolg l; tmolg r]; tbool flag; tmolg pat; L rows; tbool crashed;
          tbool (wf_rcb rc && wf_hostb host)]
   end.
+
+(** ** round 3 addition: SynReactor._wrap_template for a template given as a SynRule OBJECT.  Not inverted: the rule is
+    used as it is.  Inverted: the reactor takes rule.rc (the ALREADY PREPARED rule graph: its hydrogen counts are the
+    hydrogen changes), inverts it and wraps it WITHOUT preparing it a second time (implicit_h=False whatever the
+    reactor's hydrogen mode — /repo cc40c07; before that fix the default mode prepared it again and lost the counts). *)
+Definition wrap_template_rule (invert implicit_temp : bool) (rule : triple) : option triple :=
+  if invert then synrule (invert_template (fst (fst rule))) false else Some rule.
+
+Definition run_rule (explicit_stage stripped : bool) (host : hostg) (calls : list (mapping * option (list mapping)))
+                    (rule : option triple) : tok :=
+  match rule with
+  | None => L [I (-1)]
+  | Some (rc, l, r) =>
+      let flag := has_XH l in
+      let pat := if flag then h_to_implicit l else l in
+      let glued := map (fun c => let '(hb, ms) := call_base host c in (c, hb, map (fun x => (x, glue hb rc x)) ms)) calls in
+      let crashed := explicit_stage && existsb (fun t => existsb (fun xg => crashes (snd xg)) (snd t)) glued in
+      let show_ex := explicit_stage && negb crashed in
+      let rows := map (fun t : (mapping * option (list mapping)) * hostg * list (mapping * option its) =>
+                     let '(c, hb, gs) := t in
+                     let m := fst c in
+                     L [tmap m; tbool (match_okb host pat m);
+                        match snd c with None => L [] | Some _ => L [thostg hb] end;
+                        match snd c with None => L [] | Some rs => tlist (fun x => L [tmap x; tbool (match_okb hb l x)]) rs end;
+                        L (map (fun xg => t_glued_w show_ex hb rc (fst xg) (snd xg)) gs);
+                        tbool (wf_hostb hb && forallb (fun xg => match_rcb hb rc (fst xg)) gs)]) glued in
+      L [L [trc stripped rc; tmolg l; tmolg r]; tbool flag; tmolg pat; L rows; tbool crashed;
+         tbool (wf_rcb rc && wf_hostb host)]
+  end.
+
+(** the caller built SynRule(tpl) in the hydrogen mode of the reactor and handed the OBJECT over *)
+Definition run_c03r (invert implicit_temp explicit_stage : bool) (host : hostg) (tpl : its)
+                    (calls : list (mapping * option (list mapping))) : tok :=
+  run_rule explicit_stage (negb implicit_temp && negb invert) host calls
+    (match synrule tpl (negb implicit_temp) with
+     | None => None
+     | Some rule0 => wrap_template_rule invert implicit_temp rule0
+     end).
